@@ -315,8 +315,8 @@ def configs(tier, seed):
                                 i += 1
                                 if (i + seed) % (16 if tier == "quick" else 3) != 0:
                                     continue
-                                out.append(dict(kind=kind, variant=variant, extra=extra, mode=mode, interval=interval, W=W, R=3, mra=(i % 3 != 0),
-                                                own_time=(i % 2 == 0),
+                                out.append(dict(kind=kind, variant=variant, extra=extra, mode=mode, interval=interval, W=W, R=3, mra=(len(out) % 3 != 0),
+                                                own_time=(len(out) % 2 == 0),   # (not i: the sub-sampling is periodic in i)
                                                 seed=seed, profile=prof, F=1, stop={"max_num_trials_started": 4},
                                                 wait=(pi % 2 == 0), k=1 if tier == "quick" else 2,
                                                 max_exec=120 if tier == "quick" else 2000))
